@@ -241,6 +241,10 @@ def scenario(ctx):
                 if idx % 2:
                     raise TypeError('callback %d fails: unsupported operand' % idx)
                 raise RuntimeError('callback %d fails' % idx)
+            if idx % 3 == 0:
+                # what a handler returns is its own business (here: a Deferred nobody fires)
+                from twisted.internet import defer
+                return defer.Deferred()
     holders = {}
     stashed = []
 
@@ -607,6 +611,21 @@ def scenario(ctx):
             d = r2.call(st['proxy'].notifyOnSignal, 'Tick', lambda hits=hits: hits.append(1))
             d.addCallback(lambda rid, st=st: st.__setitem__('rid', rid))
             r2.calm()
+            # fire and forget: a subscription made through a proxy the application does not keep
+            kept = []
+
+            def forget(r2=r2, kept=kept):
+                i1 = gen.tx_interface(d_sig, register=False)
+                dd = r2.proto.getRemoteObject('org.sim.svc', '/a/b/c', i1)
+                dd.addCallback(lambda ro: ro.notifyOnSignal('Changed', lambda a, b: kept.append((a, b))))
+            r2.call(forget)
+            r2.calm()
+            r2.daemon.signal('/a/b/c', 'org.sim.I1', 'Changed', 'ss', ['x', 'y'])
+            r2.calm()
+            if kept != [('x', 'y')]:
+                raise Violation('C12/not-delivered', 'subscription of a proxy that was not kept',
+                                'a subscription made through a proxy the application did not keep '
+                                'received %r for one matching signal' % (kept,))
             extra_rigs.append((r2, st, hits))
         for r2, st, hits in extra_rigs:
             if 'rid' not in st:
